@@ -7,6 +7,7 @@
 package main
 
 import (
+	"crypto/sha256"
 	"encoding/json"
 	"fmt"
 	"os"
@@ -100,6 +101,9 @@ type input struct {
 	Payload json.RawMessage `json:"payload,omitempty"` // roundtrip: the metadata that was dumped
 	IsLink  bool            `json:"is_link,omitempty"`
 	Sigs    []intoto.Signature `json:"sigs,omitempty"`
+	Large   *largeSpec      `json:"large,omitempty"`   // large: how to rebuild the (megabytes of) metadata
+	Pad     int             `json:"pad,omitempty"`     // padded: Text + Pad blanks + Junk is the file
+	Junk    string          `json:"junk,omitempty"`
 	Target  string          `json:"target,omitempty"` // validate: which entry point
 	Val     *valInput       `json:"val,omitempty"`
 }
@@ -375,6 +379,97 @@ func runReload(ta, tb string) string {
 	})
 }
 
+// ---------- large documents ----------
+// The loader model has no notion of size (a tree is a tree): these cases carry no model term, only the
+// property oracle (what the library wrote must load back; a document followed by junk must be refused).
+
+type largeSpec struct {
+	Wrapper  string `json:"wrapper"`
+	Products int    `json:"products"`     // number of product entries
+	Stdout   int    `json:"stdout_bytes"` // length of the captured stdout by-product
+	Seed     uint64 `json:"seed"`
+}
+
+func buildLarge(sp largeSpec) intoto.Link {
+	r := lib.NewRng(sp.Seed)
+	l := intoto.Link{Type: "link", Name: "big", Materials: map[string]intoto.HashObj{}, Products: map[string]intoto.HashObj{},
+		ByProducts: map[string]interface{}{"return-value": float64(0), "stderr": ""}, Command: []string{"make"}, Environment: map[string]interface{}{}}
+	for i := 0; i < sp.Products; i++ {
+		l.Products[fmt.Sprintf("out/dir%03d/file%05d.o", i%97, i)] = intoto.HashObj{"sha256": hexStr(r, 64)}
+	}
+	if sp.Stdout > 0 {
+		var sb strings.Builder
+		for sb.Len() < sp.Stdout {
+			sb.WriteString("cc -O2 -c " + r.Str("abcdefgh/_", 8, 30) + ".c\n")
+		}
+		l.ByProducts["stdout"] = sb.String()[:sp.Stdout]
+	} else {
+		l.ByProducts["stdout"] = ""
+	}
+	return l
+}
+
+func digest(s string) string {
+	if !strings.HasPrefix(s, "OK") {
+		return s
+	}
+	return fmt.Sprintf("OK#%d:%x", len(s), sha256.Sum256([]byte(s)))
+}
+
+func runLarge(sp largeSpec) (impl, oracle string, size int) {
+	link := buildLarge(sp)
+	os.Remove(tmpFile("dump.json"))
+	d, err := dumpDoc(sp.Wrapper, link, nil)
+	exp := digest(expectLoaded(sp.Wrapper, link, nil))
+	oracle = exp + "|" + exp
+	if sp.Wrapper == "D" {
+		oracle = exp + "|ERR"
+	}
+	if err != nil {
+		return "DUMP-ERR", oracle, 0
+	}
+	lm, ml := runLoaders(d.Raw)
+	return digest(lm) + "|" + digest(ml), oracle, len(d.Raw)
+}
+
+func largeCase(sp largeSpec) lib.Case {
+	impl, oracle, size := runLarge(sp)
+	in := input{Kind: "large", Wrapper: sp.Wrapper, Large: &sp,
+		Desc: fmt.Sprintf("link with %d products and %d bytes of stdout, dumped (%d bytes) and loaded back", sp.Products, sp.Stdout, size)}
+	kind := "products"
+	if sp.Stdout > 0 {
+		kind = "stdout"
+	}
+	return lib.Case{Klass: "large-roundtrip-" + kind + "-" + map[string]string{"L": "legacy", "D": "dsse"}[sp.Wrapper],
+		Input: lib.MustJSON(in), Impl: impl, Oracle: oracle}
+}
+
+func paddedText(doc string, pad int, junk string) string {
+	var sb strings.Builder
+	sb.Grow(len(doc) + pad + len(junk))
+	sb.WriteString(doc)
+	for i := 0; i < pad; i++ {
+		if i%80 == 79 {
+			sb.WriteByte('\n')
+		} else {
+			sb.WriteByte(' ')
+		}
+	}
+	sb.WriteString(junk)
+	return sb.String()
+}
+
+// a valid document, blanks, then junk: never a link or layout file, wherever the junk starts
+func paddedCase(d *doc, junkAt int, mark string, junk string) lib.Case {
+	doc := d.Outer.JSON()
+	pad := junkAt - len(doc)
+	lm, ml := runLoaders(paddedText(doc, pad, junk))
+	in := input{Kind: "padded", Wrapper: d.Wrapper, Text: doc, Pad: pad, Junk: junk,
+		Desc: fmt.Sprintf("valid document (%d bytes), %d blanks, then %q starting at offset %d (%s)", len(doc), pad, junk, junkAt, mark)}
+	return lib.Case{Klass: "padded-junk@" + mark + "-" + map[string]string{"L": "legacy", "D": "dsse"}[d.Wrapper], Input: lib.MustJSON(in),
+		Impl: lm + "|" + ml, Oracle: "ERR|ERR", CoqModel: loadTerm(nil, false)}
+}
+
 // stratified sample: round-robin over the classes
 func sample(r *lib.Rng, cs []corruption, n int) []corruption {
 	if n >= len(cs) {
@@ -445,6 +540,43 @@ func gen(out string, n int) {
 			}
 			w.Put(redumpCase(rr.Fork(), wr, (i/2)%2 == 0, i/4))
 		}
+	}
+
+	// large documents (1.2 - 3 MiB) written by the library and loaded back, both wrappers, both loaders
+	for i, sp := range []largeSpec{{"L", 12000, 0, 0}, {"D", 12000, 0, 0}, {"L", 3, 1500000, 0}, {"D", 3, 1500000, 0},
+		{"L", 20000, 700000, 0}, {"D", 6000, 1200000, 0}} {
+		if !thorough && i >= 4 {
+			break
+		}
+		sp.Seed = rr.U64()
+		w.Put(largeCase(sp))
+	}
+	// a valid document followed by blanks and junk, the junk starting around 64 KiB, 1 MiB, 2 MiB, 4 MiB
+	{
+		rp := rr.Fork()
+		dl, err := makeDoc("L", genLink(rp), []intoto.Signature{{KeyID: "ab12", Sig: "cafe"}})
+		if err != nil {
+			panic(err)
+		}
+		dd, err := makeDoc("D", genLink(rp), []intoto.Signature{{KeyID: "ab12", Sig: "cafe"}})
+		if err != nil {
+			panic(err)
+		}
+		for _, m := range []struct {
+			name string
+			at   int
+		}{{"64KiB", 1 << 16}, {"1MiB", 1 << 20}, {"2MiB", 1 << 21}, {"4MiB", 1 << 22}} {
+			for k, delta := range []int{-1, 0, 1} {
+				d := dl
+				if (k+len(m.name))%2 == 1 || m.at == 1<<20 && k == 1 {
+					d = dd
+				}
+				w.Put(paddedCase(d, m.at+delta, m.name, []string{"x", "}", "{\"signed\":1}"}[k]))
+			}
+		}
+		w.Put(paddedCase(dl, 1<<20, "1MiB", "x"))
+		w.Put(paddedCase(dd, 1<<20+1, "1MiB", "x"))
+		w.Put(paddedCase(dl, len(dl.Outer.JSON())+1, "adjacent", "x"))
 	}
 
 	// (3) validator
@@ -531,6 +663,15 @@ func main() {
 			}
 			fmt.Println("file: " + in.Text)
 			lm, ml := runLoaders(in.Text)
+			fmt.Println("impl LoadMetadata:   " + lm)
+			fmt.Println("impl Metablock.Load: " + ml)
+		case "large":
+			impl, oracle, size := runLarge(*in.Large)
+			fmt.Printf("dumped file: %d bytes\nimpl:   %s\noracle: %s\n", size, impl, oracle)
+		case "padded":
+			lm, ml := runLoaders(paddedText(in.Text, in.Pad, in.Junk))
+			fmt.Println("document: " + in.Text)
+			fmt.Printf("followed by %d blanks and %q\n", in.Pad, in.Junk)
 			fmt.Println("impl LoadMetadata:   " + lm)
 			fmt.Println("impl Metablock.Load: " + ml)
 		case "reload":
